@@ -155,19 +155,27 @@ PROPS = {
                       "is evaluated numerically and reported in the evidence.",
     },
     "C05": {
-        "targets": ["spowtd.fit_offsets:split_mapping_by_keys"],
+        "targets": ["spowtd.fit_offsets:split_mapping_by_keys", "spowtd.fit_offsets:find_offsets"],
         "lean": ["LeastSquares.lean"],
         "bounded": [{"run": "bounded.fit_checks:run_C05",
-                     "what": "bounded stand-in for the assembly of the normal equations in find_offsets: on every small connected "
+                     "what": "validation of the numpy assumptions (dot, solve) and of the bridge: on every small connected "
                              "overlap structure the returned offsets are compared, in exact rational arithmetic, with 'the residuals "
                              "of every interval sum to zero' (the hypothesis of the Lean theorem) and with perturbed offsets"}],
         "level_text": "The mathematics is machine-checked in Lean 4 + Mathlib (lean/LeastSquares.lean, theorem c05 and lemmas): from "
                       "(A^T A) x = A^T b for the design matrix / vector of the property's objective, x minimises the summed squared "
                       "spread, every interval's residuals sum to zero, and the minimiser is unique up to a common shift on a connected "
-                      "overlap graph. That find_offsets assembles exactly that A and b and solves those equations is a bounded stand-in "
-                      "in this revision (exact re-computation on small structures), not a discharged obligation.",
-        "level_note": "Bridge (reviewed, not machine-linked): designA / designB in Lean and the matrix rows written by find_offsets are "
-                      "the same two formulas. Assumed: numpy.dot and numpy.linalg.solve are exact (floats as reals).",
+                      "overlap graph. That find_offsets assembles exactly that A and b is an unbounded pyvc proof from its source: levels "
+                      "with a single series are dropped and nothing else; the series ids are the ascending enumeration of the series "
+                      "present, the reference is the last; rows are in bijection with (level, crossing) pairs (ghost maps row -> level, "
+                      "crossing); every row has 1/n in the column of each non-reference series present at its level minus 1 in its own "
+                      "column, and right-hand side crossing - level mean (= designA / designB of the Lean file); and the returned offsets "
+                      "are what numpy.linalg.solve returned for np.dot(A.T, A), np.dot(A.T, b) of exactly those arrays, followed by 0 for "
+                      "the reference (dataflow by provenance in the symbolic executor).",
+        "level_note": "Assumed: numpy.dot / transpose / linalg.solve compute the matrix product and the solution of M x = v (floats as "
+                      "reals; entries of products are not modelled). The correspondence between the row-wise statement proved by pyvc "
+                      "and Lean's designA (indexed by all (level, series) pairs, zero rows for absent pairs, which do not contribute "
+                      "to A^T A or A^T b) is by reading the two definitions. get_series_time_offsets (sorting, head mapping, choice of "
+                      "the connected group) around find_offsets is covered by the stand-ins of C08.",
     },
     "C08": {
         "targets": ["spowtd.fit_offsets:split_mapping_by_keys"],
